@@ -1853,41 +1853,63 @@ fn run_history_inner(ops: &[Op], hseed: u64) -> (String, String, String, String)
 }
 
 /// `#cmp` and `#tbl` header lines (see the module documentation); computed once per process
+/// The fingerprints of the real compiler's output for every (name, source, load-time configuration).
+/// The ORDER in which the 96 configurations are compiled is a permutation chosen by the environment
+/// variable `C15_TABLE_ORDER` (0 / unset = canonical): a compiled template has to be a function of
+/// (name, source, load-time configuration) whatever the process compiled before, so the check runs
+/// its shards with different orders and compares the tables of all of them.
 fn tables() -> &'static String {
     static T: OnceLock<String> = OnceLock::new();
     T.get_or_init(|| {
         let mut out = String::new();
         let mut cmp: BTreeMap<(u8, usize), bool> = BTreeMap::new();
+        let mut cfgs: Vec<Lt> = Vec::new();
         for trim in 0..2u8 {
             for lstrip in 0..2u8 {
                 for ktn in 0..2u8 {
                     for syn in 0..3u8 {
                         for ae in 0..4u8 {
-                            let lt: Lt = [trim, lstrip, ktn, syn, ae];
-                            let mut env = new_env();
-                            let mut cur = LT_DEFAULT;
-                            apply_lt(&mut env, &mut cur, &lt);
-                            for (s, src) in SOURCES.iter().enumerate() {
-                                for (n, name) in NAMES.iter().enumerate() {
-                                    let ok = match env.template_from_named_str(name, src) {
-                                        Ok(t) => {
-                                            out.push_str(&format!("#tbl {} {} {} {}\n", n, s, lt_code(&lt), fingerprint(&t)));
-                                            true
-                                        }
-                                        Result::Err(_) => false,
-                                    };
-                                    match cmp.get(&(syn, s)) {
-                                        Some(prev) if *prev != ok => out.push_str(&format!("#cmp-inconsistent {} {}\n", syn, s)),
-                                        _ => {
-                                            cmp.insert((syn, s), ok);
-                                        }
-                                    }
-                                }
-                            }
+                            cfgs.push([trim, lstrip, ktn, syn, ae]);
                         }
                     }
                 }
             }
+        }
+        let order: u64 = std::env::var("C15_TABLE_ORDER").ok().and_then(|s| s.parse().ok()).unwrap_or(0);
+        if order != 0 {
+            let mut rng = Rng::new(order ^ 0x5151_c15c_15c1_5151);
+            for i in (1..cfgs.len()).rev() {
+                let j = rng.below(i as u64 + 1) as usize;
+                cfgs.swap(i, j);
+            }
+        }
+        let mut lines: Vec<String> = Vec::new();
+        for lt in cfgs {
+            let syn = lt[3];
+            let mut env = new_env();
+            let mut cur = LT_DEFAULT;
+            apply_lt(&mut env, &mut cur, &lt);
+            for (s, src) in SOURCES.iter().enumerate() {
+                for (n, name) in NAMES.iter().enumerate() {
+                    let ok = match env.template_from_named_str(name, src) {
+                        Ok(t) => {
+                            lines.push(format!("#tbl {} {} {} {}\n", n, s, lt_code(&lt), fingerprint(&t)));
+                            true
+                        }
+                        Result::Err(_) => false,
+                    };
+                    match cmp.get(&(syn, s)) {
+                        Some(prev) if *prev != ok => out.push_str(&format!("#cmp-inconsistent {} {}\n", syn, s)),
+                        _ => {
+                            cmp.insert((syn, s), ok);
+                        }
+                    }
+                }
+            }
+        }
+        lines.sort();
+        for l in lines {
+            out.push_str(&l);
         }
         for ((syn, s), ok) in cmp {
             out.push_str(&format!("#cmp {} {} {}\n", syn, s, ok as u8));
@@ -2114,6 +2136,162 @@ fn foreign_line(env: &Environment<'static>, x: usize, site: &str, consumer: &str
     format!("fx:{}:{}:{}:{}\t{}\t{}", x, site, consumer, via, variants.join(" / "), verdict)
 }
 
+// ======================================================================================
+// "gated loader" stream: deterministic schedules of the memoising tier at lock granularity
+// (correspondence stream of `MJ/Model/MemoConc.lean`).
+//
+// The loader closure runs INSIDE `MemoMap::get_or_try_insert`, i.e. inside the critical section of
+// the map's mutex.  Thread A looks up the loader-backed name `c0` and is held inside the loader;
+// while it is held the other threads start their lookups — `s`: the same name, `d`: another
+// loader-backed name, `b`: a name of the borrowed tier — and (case `w`) the outside world changes
+// what the loader answers; then A is let go.  At lock granularity this is the schedule
+//   A acquire, A look (miss); each other thread one step (`b`: answered from the borrowed tier
+//   without the mutex; `s`/`d`: blocked); [world]; A create+insert, A release; the others in turn.
+//   case  cc:<others>:<w|n>      others = 1..3 letters of {s, d, b}
+// Reported: what every thread rendered, which of the others finished while A was still inside
+// the loader, and how often the loader was asked for each name.
+// ======================================================================================
+
+struct Gate {
+    entered: AtomicUsize,
+    go: AtomicBool,
+    phase: AtomicUsize,
+    loads: Mutex<BTreeMap<String, usize>>,
+}
+
+fn cc_lookup(env: &Environment<'static>, name: &str) -> String {
+    match env.get_template(name) {
+        Ok(t) => match t.render(()) {
+            Ok(s) => s,
+            Result::Err(e) => err_code(&e),
+        },
+        Result::Err(e) => err_code(&e),
+    }
+}
+
+fn wait_until(limit_ms: u64, mut f: impl FnMut() -> bool) -> bool {
+    let t0 = std::time::Instant::now();
+    while !f() {
+        if t0.elapsed().as_millis() as u64 > limit_ms {
+            return false;
+        }
+        std::thread::sleep(std::time::Duration::from_millis(1));
+    }
+    true
+}
+
+fn run_cc(others: &str, world: bool) -> String {
+    let was = LOGGING.swap(false, Ordering::Relaxed);
+    let gate = std::sync::Arc::new(Gate {
+        entered: AtomicUsize::new(0),
+        go: AtomicBool::new(false),
+        phase: AtomicUsize::new(1),
+        loads: Mutex::new(BTreeMap::new()),
+    });
+    let mut env = new_env();
+    env.add_template("cb", "B9").unwrap();
+    let g = gate.clone();
+    env.set_loader(move |name: &str| {
+        let call = {
+            let mut loads = g.loads.lock().unwrap();
+            let e = loads.entry(name.to_string()).or_insert(0);
+            *e += 1;
+            *e
+        };
+        if name == "c0" {
+            g.entered.fetch_add(1, Ordering::SeqCst);
+            wait_until(60_000, || g.go.load(Ordering::SeqCst));
+        }
+        let n = match name {
+            "c0" => 0,
+            "c1" => 1,
+            _ => return Ok(None),
+        };
+        // an impure loader: a second request for the same name would be answered differently
+        let again = if call > 1 { format!("#{}", call) } else { String::new() };
+        Ok(Some(format!("P{}N{}{}", g.phase.load(Ordering::SeqCst), n, again)))
+    });
+    let env = &env;
+    let k = others.chars().count();
+    let done: Vec<std::sync::Arc<AtomicBool>> = (0..k).map(|_| std::sync::Arc::new(AtomicBool::new(false))).collect();
+    let mut notes: Vec<&str> = Vec::new();
+    let (a, rest, early) = std::thread::scope(|sc| {
+        let ha = sc.spawn(|| cc_lookup(env, "c0"));
+        if !wait_until(60_000, || gate.entered.load(Ordering::SeqCst) >= 1) {
+            notes.push("first-thread-never-reached-the-loader");
+        }
+        let hs: Vec<_> = others
+            .chars()
+            .enumerate()
+            .map(|(i, ch)| {
+                let name = match ch {
+                    's' => "c0",
+                    'd' => "c1",
+                    _ => "cb",
+                };
+                let d = done[i].clone();
+                sc.spawn(move || {
+                    let r = cc_lookup(env, name);
+                    d.store(true, Ordering::SeqCst);
+                    r
+                })
+            })
+            .collect();
+        // a lookup answered by the borrowed tier does not take the mutex: it has to finish while
+        // the first thread is still inside the loader
+        for (i, ch) in others.chars().enumerate() {
+            if ch == 'b' && !wait_until(30_000, || done[i].load(Ordering::SeqCst)) {
+                notes.push("borrowed-tier-lookup-blocked");
+            }
+        }
+        std::thread::sleep(std::time::Duration::from_millis(5));
+        let early: Vec<bool> = done.iter().map(|d| d.load(Ordering::SeqCst)).collect();
+        if world {
+            gate.phase.store(2, Ordering::SeqCst);
+        }
+        gate.go.store(true, Ordering::SeqCst);
+        let a = ha.join().unwrap_or_else(|_| "panic".to_string());
+        let rest: Vec<String> = hs.into_iter().map(|h| h.join().unwrap_or_else(|_| "panic".to_string())).collect();
+        (a, rest, early)
+    });
+    LOGGING.store(was, Ordering::Relaxed);
+    let loads = gate.loads.lock().unwrap().iter().map(|(n, c)| format!("{}:{}", n, c)).collect::<Vec<_>>().join(",");
+    let mut all = vec![a];
+    all.extend(rest);
+    format!(
+        "cc:{}:{}\t{}\tearly={}\tloads={}\t{}",
+        others,
+        if world { "w" } else { "n" },
+        all.join(" / "),
+        early.iter().map(|b| if *b { '1' } else { '0' }).collect::<String>(),
+        loads,
+        if notes.is_empty() { "=".to_string() } else { notes.join(",") }
+    )
+}
+
+fn cc_cases() -> Vec<(String, bool)> {
+    let mut v = Vec::new();
+    let letters = ['s', 'd', 'b'];
+    let mut words: Vec<String> = letters.iter().map(|c| c.to_string()).collect();
+    let mut all = words.clone();
+    for _ in 0..2 {
+        let mut next = Vec::new();
+        for w in &words {
+            for c in letters {
+                next.push(format!("{}{}", w, c));
+            }
+        }
+        all.extend(next.iter().cloned());
+        words = next;
+    }
+    for w in all {
+        for world in [false, true] {
+            v.push((w.clone(), world));
+        }
+    }
+    v
+}
+
 fn main() {
     quiet_panics();
     let args: Vec<String> = std::env::args().collect();
@@ -2175,6 +2353,38 @@ fn main() {
                     break;
                 }
             }
+        }
+        Some("tblone") => {
+            // `tblone <n> <s> <ltcode>`: the fingerprint of ONE compilation in a process that compiled
+            // nothing else (replay of a compile-order failure)
+            let n: usize = args.get(2).and_then(|s| s.parse().ok()).unwrap_or(0).min(NN - 1);
+            let sidx: usize = args.get(3).and_then(|s| s.parse().ok()).unwrap_or(0).min(NS - 1);
+            let code: Vec<u8> = args.get(4).map(|c| c.bytes().map(|b| b.saturating_sub(b'0')).collect()).unwrap_or_default();
+            let mut lt = LT_DEFAULT;
+            for (i, v) in code.iter().take(5).enumerate() {
+                lt[i] = (*v).min(LT_RANGE[i] - 1);
+            }
+            let mut env = new_env();
+            let mut cur = LT_DEFAULT;
+            apply_lt(&mut env, &mut cur, &lt);
+            match env.template_from_named_str(NAMES[n], SOURCES[sidx]) {
+                Ok(t) => writeln!(out, "{}", fingerprint(&t)).unwrap(),
+                Result::Err(e) => writeln!(out, "uncompilable:{}", err_code(&e)).unwrap(),
+            }
+        }
+        Some("conc") => {
+            // the whole (small) case space of gated-loader schedules, `rounds` times
+            let rounds: usize = args.get(2).and_then(|s| s.parse().ok()).unwrap_or(1);
+            for _ in 0..rounds {
+                for (others, world) in cc_cases() {
+                    writeln!(out, "{}", run_cc(&others, world)).unwrap();
+                }
+            }
+        }
+        Some("cone") => {
+            let f: Vec<&str> = args[2].split(':').collect();
+            let others: String = f.get(1).copied().unwrap_or("s").chars().filter(|c| "sdb".contains(*c)).take(6).collect();
+            writeln!(out, "{}", run_cc(&others, f.get(2).copied() == Some("w"))).unwrap();
         }
         Some("foreign") => {
             // the whole (small) case space, `rounds` times (thread schedules differ between rounds)
